@@ -275,7 +275,10 @@ func (o *ou1) merge(s, sub *ou1Summary, b *ssa.BasicBlock, wMin, wMax []int) {
 }
 
 // definitelyFails: the returned error is freshly built or is some call's error on that call's non-nil edge.
-func (o *ou1) definitelyFails(fn *ssa.Function, r *ssa.Return) bool {
+func (o *ou1) definitelyFails(fn *ssa.Function, r *ssa.Return) bool { return o.c.definitelyFails(fn, r) }
+
+// definitelyFails: the return hands back an error that is non-nil on every path reaching it.
+func (c *Ctx) definitelyFails(fn *ssa.Function, r *ssa.Return) bool {
 	if len(r.Results) == 0 {
 		return false
 	}
@@ -307,7 +310,7 @@ func (o *ou1) definitelyFails(fn *ssa.Function, r *ssa.Return) bool {
 		if n == "errors.New" || n == "fmt.Errorf" || strings.HasSuffix(n, ".GoError") || strings.HasSuffix(n, "prunedErr") {
 			continue
 		}
-		if h := cl.Call.StaticCallee(); h != nil && o.c.InModule(h) && alwaysFails(h, 0) {
+		if h := cl.Call.StaticCallee(); h != nil && c.InModule(h) && alwaysFails(h, 0) {
 			continue
 		}
 		if mustPassEdges(fn, r.Block(), nonNilErrEdges(fn, cl)) {
